@@ -348,6 +348,7 @@ def main(mod, argv=None):
     ap.add_argument("--scale", type=float, default=1.0, help="multiply batch sizes")
     ap.add_argument("--no-selftest", action="store_true")
     ap.add_argument("--no-evidence", action="store_true")
+    ap.add_argument("--dump-digests", default=None, help="write {batch:idx: digest} JSON (debugging determinism)")
     args = ap.parse_args(argv)
     assert_tree()
     cfg = tier_cfg(mod, args.tier)
@@ -494,6 +495,9 @@ def check(mod, ctx, args):
         if "history" in val and len(samples) < 6 and k[1] < 2:
             samples.append({"batch": k[0], "run": k[1], "history": _trim(val["history"]), "digest": val["digest"][:16]})
 
+    if args.dump_digests:
+        with open(args.dump_digests, "w") as f:
+            json.dump({"%s:%d" % k: v for k, v in sorted(digests.items())}, f, indent=0)
     exit_code = 0
     lines = []
     for kid, kf in known_hits.items():
